@@ -781,4 +781,14 @@ C09(e) ==
   If("panic" \in DOMAIN e /\ e.panic # "", "C09: the application panicked in " \o e.ev)
   \cup If("projPanic" \in DOMAIN e, "C09: the application state is unreadable after " \o e.ev)
 
+\* Bytes the signature does not cover (a payload attached to a transaction type that has none) are not executed either:
+\* the delivered bytes do exactly what the signed transaction does.  e.ref is the reference run of the SIGNED transaction
+\* (e.ignoredBytes: the driver made the delivered bytes from a signed transaction by changing only such bytes).
+C03Ignored(e, pre, post) ==
+  IF IsTx(e) /\ "ignoredBytes" \in DOMAIN e THEN
+     If(~e.resp.ok, "C03: a signed transaction was refused because of bytes its type does not have")
+     \cup If("ref" \in DOMAIN e /\ C17(e, pre, post) # {},
+             "C03: bytes that the signature does not cover changed what the transaction did")
+  ELSE {}
+
 =============================================================================
